@@ -72,7 +72,7 @@ def m1_freeze_threshold(S):
     f = [x for x in S.prog.funcs if x.kind == "fn" and x.short == "freeze" and "shared/src/shared.rs" in x.name and len(x.params) == 1]
     if len(f) != 1:
         raise Inconclusive(f"Shared::freeze: {len(f)} candidates")
-    pre = [T.le(T.add(frozen.t, LIMIT), U64)]
+    pre = [T.le(T.add(frozen.t, LIMIT), U64), T.lt(cur.t, 1 << 24)]      # epoch numbers are 24-bit fields of the header
     ps = S.run(ctx, f[0], [ctx.ref_to(OpaqueV("shared", "Shared"))])
     S.prove(ctx, ob, "no_panic", pre, T.not_(cond_of(panics(ps))))
     calls = [e for e in log if e[0] == "freeze"]
@@ -93,19 +93,19 @@ def m1_freeze_threshold(S):
 
 
 def m3_reads_switch_to_freezer(S):
-    """ChainStore::get_block / get_block_txs_hashes-style readers: the freezer is consulted exactly for 0 < number < freezer.number(),
-    with that number"""
+    """ChainStore::get_block and ::get_transaction_with_info (the two readers with a freezer branch): the freezer is consulted exactly
+    for 0 < number < freezer.number(), and it is asked for that block number; otherwise the key-value store is read"""
+    from mir2smt.srcinfo import field_index
     ob = "C10.m3"
-    readers = []
-    for f in S.prog.funcs:
-        if f.kind == "fn" and "store/src/store.rs" in f.name and f.short in ("get_block", "get_unfrozen_block", "get_block_body", "get_transaction_with_info", "get_packed_block", "get_block_uncles", "get_block_proposal_txs_ids", "get_block_extension", "get_block_txs_hashes"):
-            readers.append(f)
-    checked = 0
-    for f in sorted(readers, key=lambda x: x.short):
-        txt = "\n".join(b.text if hasattr(b, "text") else "" for b in f.blocks.values()) if False else None
+    ti = field_index("util/types/src/core/extras.rs", "TransactionInfo")
+    for short in ("get_block", "get_transaction_with_info"):
+        f = [x for x in S.prog.funcs if x.kind == "fn" and x.name == "ChainStore::" + short]
+        if len(f) != 1:
+            raise Inconclusive(f"ChainStore::{short}: {len(f)} candidates")
         ctx = S.ctx()
         ctx.uninterpreted_unknown_calls = True
-        num = ctx.int("block_number", "u64"); fnum = ctx.int("freezer_number", "u64"); has_fr = ctx.bool("has_freezer"); known = ctx.bool("header_known")
+        fnum = ctx.int("freezer_number", "u64"); has_fr = ctx.bool("has_freezer"); known = ctx.bool("record_known")
+        num = ctx.int("block_number", "u64") if short == "get_block" else ctx.int(f"txinfo.{ti['block_number']}", "u64")
         log = []
 
         def retrieve(ex, c, a, d, log=log):
@@ -120,24 +120,25 @@ def m3_reads_switch_to_freezer(S):
             (E.rx(r"Freezer::number$"), lambda ex, c, a, d: fnum),
             (E.rx(r"Freezer::retrieve$"), retrieve),
             (E.rx(r"ChainStore>::get_block_header$"), lambda ex, c, a, d: mk_option(known.t, OpaqueV("header", "HeaderView"), d)),
+            (E.rx(r"ChainStore>::get_transaction_info$"), lambda ex, c, a, d: mk_option(known.t, OpaqueV("txinfo", "TransactionInfo"), d)),
             (E.rx(r"HeaderView::number$"), lambda ex, c, a, d: num),
-            (E.rx(r"ChainStore>::(get_block_body|get_block_uncles|get_block_proposal_txs_ids|get_block_extension|get|get_iter|cache)$"), kv),
+            (E.rx(r"ChainStore>::(get_block_body|get_block_uncles|get_block_proposal_txs_ids|get_block_extension|get)$|TransactionInfo::key$"), kv),
         ]
-        try:
-            ps = S.run(ctx, f, [ctx.ref_to(OpaqueV("store", "Self")), ctx.ref_to(OpaqueV("hash", "Byte32"))], allow=("return", "panic", "stop"))
-        except Inconclusive:
-            continue
+        ps = S.run(ctx, f[0], [ctx.ref_to(OpaqueV("store", "Self")), ctx.ref_to(OpaqueV("hash", "Byte32"))], allow=("return", "panic", "stop"))
+        S.prove(ctx, ob, f"{short}_no_panic_before_the_read", [], T.not_(cond_of(panics(ps))))
         rets = [e for e in log if e[0] == "retrieve"]
-        if not rets:
-            continue
-        checked += 1
+        kvs = [e for e in log if e[0] == "kv"]
+        if not rets or not kvs:
+            raise Inconclusive(f"ChainStore::{short}: freezer read reached {len(rets)} times, key-value read {len(kvs)} times")
         frozen_read = T.or_(*[T.and_(*pc) for _, pc, _ in rets])
-        S.prove(ctx, ob, f"{f.short}_reads_freezer_iff_number_below_frozen_height", [known.t], T.iff(frozen_read, T.and_(has_fr.t, T.gt(num.t, 0), T.lt(num.t, fnum.t))))
+        kv_read = T.or_(*[T.and_(*pc) for _, pc, _ in kvs])
+        in_freezer = T.and_(has_fr.t, T.gt(num.t, 0), T.lt(num.t, fnum.t))
+        S.prove(ctx, ob, f"{short}_reads_freezer_iff_number_below_frozen_height", [known.t], T.iff(frozen_read, in_freezer))
+        S.prove(ctx, ob, f"{short}_reads_kv_store_otherwise", [known.t], T.iff(kv_read, T.not_(in_freezer)))
+        S.prove(ctx, ob, f"{short}_unknown_record_reads_nothing", [T.not_(known.t)], T.not_(T.or_(frozen_read, kv_read)))
         for k, (_, pc, arg) in enumerate(rets):
-            S.prove(ctx, ob, f"{f.short}_retrieve{k}_asks_for_the_block_number", pc, T.eq(arg, num.t))
-        S.witness(ctx, ob, f"{f.short}_reach_frozen", [known.t], frozen_read)
-    if checked == 0:
-        raise Inconclusive("no ChainStore reader with a freezer branch was found")
+            S.prove(ctx, ob, f"{short}_retrieve{k}_asks_for_the_block_number", pc, T.eq(arg, num.t))
+        S.witness(ctx, ob, f"{short}_reach_frozen", [known.t], frozen_read)
 
 
 OBLIGATIONS = [m1_freeze_threshold, m3_reads_switch_to_freezer]
@@ -147,7 +148,7 @@ LEVEL = "other"
 EXPLANATION = ("Shared::freeze (threshold computation) and the ChainStore readers' freezer branch are executed symbolically from their MIR with the store, snapshot and freezer "
                "calls as environment symbols; the threshold handed to the freezer and the condition/argument of every freezer read are compared with the rule stated in the property.")
 BOUNDS = {"values": "all u64 heights/epochs, no bound", "outside": "RocksDB batches and iterators, wipe_out_frozen_data, the background thread and its stop flag, crash behaviour (file level: C09), Freezer::freeze loop body"}
-ASSUMPTIONS = ["store/snapshot/freezer accessors are environment symbols (arbitrary values)", "frozen_number + MAX_FREEZE_LIMIT fits u64 (otherwise the real code panics on overflow)"]
+ASSUMPTIONS = ["store/snapshot/freezer accessors are environment symbols (arbitrary values)", "frozen_number + MAX_FREEZE_LIMIT fits u64 and the epoch number is below 2^24 (its header field width); otherwise the real code panics on overflow"]
 TRUSTED = []
 LEVEL_TEXT = ("Decided by SMT over the real MIR: blocks are handed to the freezer only below min(last block of epoch current-2, frozen + per-run limit) and never during IBD or before "
               "epoch 3; block readers switch to the freezer exactly for 0 < number < frozen height and ask for that number. Invisibility of freezing to every query over histories, "
